@@ -687,11 +687,16 @@ def g_inbreeding(s, P):
     W = (lambda v: {'$arr': v}) if s.chance(0.4) else (lambda v: v)
     if s.chance(0.5):
         n = s.choice([4, 8])
-        P.add('from_phi_inbreeding', phi, [n], T(xx), W([s.choice([0.2, 0.6, 1.0])]), [s.choice([2, 4])])
+        r1 = P.add('from_phi_inbreeding', phi, [n], T(xx), W([s.choice([0.2, 0.6, 1.0])]), [s.choice([2, 4])])
     else:
         phi = P.add('phi_1D_to_2D', xx, phi)
         phi = P.add('Integration.two_pops', phi, xx, 0.02, 1.0, 2.0)
-        P.add('from_phi_inbreeding', phi, [4, 4], T(xx, xx), W([s.choice([0.2, 0.6, 1.0]), s.choice([0.1, 0.5])]), [2, s.choice([2, 4])])
+        Fs, pl = [s.choice([0.2, 0.6, 1.0]), s.choice([0.1, 0.5])], [2, s.choice([2, 4])]
+        P.add('from_phi_inbreeding', phi, [4, 4], T(xx, xx), W(Fs), pl)
+        if s.chance(0.5):
+            # the same sampling with and without ascertainment on heterozygosity in one population (E5: one option differs)
+            for ha in s.sample([None, 'xx', 'yy'], 2):
+                P.add('from_phi_inbreeding', phi, [4, 4], T(xx, xx), W(Fs), pl, het_ascertained=ha)
     return P
 
 
@@ -1096,10 +1101,50 @@ def g_demes_export(s, P):
     return P
 
 
+def g_regrid_nd(s, P):
+    """2-3 populations on two grids of equal length and different spacing, time-dependent path, with frozen subsets (a kernel
+    that is skipped for a frozen population cannot refresh anything the other kernels share); the timestep knob in a scope"""
+    nd = s.choice([2, 2, 3])
+    pts = s.choice([6, 8])
+    kinds = s.sample(['grid', 'grid_exp', 'grid_exp4', 'grid_cumsum'], 2)
+    last = None
+    for kind in kinds:
+        xx = P.add('grid_exp', pts, 4.0) if kind == 'grid_exp4' else P.add(kind, pts)
+        phi = P.add('phi_1D', xx)
+        phi = P.add('phi_1D_to_2D', xx, phi)
+        if nd == 3:
+            phi = P.add('phi_2D_to_3D_split_1', xx, phi)
+        kw = {}
+        frozen = s.sample(list(range(1, nd + 1)), s.choice([0, 1, 1, 2]))
+        for i in frozen:
+            kw['frozen%d' % i] = True
+        free = [i for i in range(1, nd + 1) if i not in frozen]
+        nus = [s.choice([0.5, 1.0, 2.0]) for _ in range(nd)]
+        if free:
+            j = s.choice(free)
+            nus[j - 1] = {'$fn': 'ramp', 'a': nus[j - 1], 'b': s.choice([0.0, 5.0])}
+            if len(free) >= 2 and s.chance(0.4):
+                a, b = s.sample(free, 2)
+                kw['m%d%d' % (a, b)] = s.choice([0.5, {'$fn': 'const', 'v': 1.0}])
+        else:
+            kw['theta0'] = {'$fn': 'const', 'v': 1.0}
+        T_ = s.choice([0.01, 0.03])
+        if s.chance(0.3):
+            ph2 = P.add('ts_scope', s.choice([pts, 20]), s.choice([10, 3]), phi, xx, T_, *nus, **kw)
+        else:
+            ph2 = P.add({2: 'Integration.two_pops', 3: 'Integration.three_pops'}[nd], phi, xx, T_, *nus, **kw)
+        fs = P.add('from_phi', ph2, [2] * nd, T(*([xx] * nd)))
+        if s.chance(0.6):
+            P.steps.append({'r': '%sdrop%d' % (P.p, len(P.steps)), 'op': 'E1.forget', 'a': [xx['$'], phi['$'], ph2['$']]})
+        last = fs
+    P.add('S.fold', last)
+    return P
+
+
 TEMPLATES = [
     (g_chain1d, 10), (g_regrid, 4), (g_chain2d, 12), (g_chain3d, 7), (g_chain4d, 6), (g_chain5d, 2), (g_spectrum, 10), (g_numerics, 7),
     (g_badcalls, 5), (g_lowpass, 4), (g_lowpass_model, 2), (g_lowpass_dd, 3), (g_optgrid, 2), (g_nlopt, 2), (g_library, 6), (g_datadict, 5), (g_opthelp, 4), (g_objective, 3), (g_inbreeding, 4), (g_extrap, 5), (g_demes, 6), (g_godambe, 10), (g_godambe_neg, 2), (g_godambe_real, 2),
-    (g_optimisers, 3), (g_xchrom, 3), (g_persist, 4), (g_vcf, 4), (g_lowpass_sim, 3), (g_misc2, 4), (g_errstate, 4), (g_demes_export, 4),
+    (g_optimisers, 3), (g_xchrom, 3), (g_persist, 4), (g_vcf, 4), (g_lowpass_sim, 3), (g_misc2, 4), (g_errstate, 4), (g_demes_export, 4), (g_regrid_nd, 5),
 ]
 
 
